@@ -7,12 +7,14 @@
                   from AFTER the tag word (tag lost, 8 bytes read past the list: Go panics
                   when that is past the segment's capacity), nothing is truncated, and the
                   resulting list pointer refers to the word before the copy;
-     cx_bitpad    O2: the unused bits of the last byte of a bit list were copied verbatim.
+     cx_bitpad    O2: the unused bits of the last byte of a bit list were copied verbatim;
+     cx_farnull   O3: canonicalStructSize tested the raw pointer word, so a far pointer to a
+                  null landing pad in the last slot was not truncated.
    No proofs in this file. *)
-From CV Require Export Value.ValueEq.
+From CV Require Export Value.ValueEq Value.EqualM.
 Open Scope Z_scope.
 
-Record cfix := mkCFix { cx_complist : bool; cx_bitpad : bool; cx_rd : fixes }.
+Record cfix := mkCFix { cx_complist : bool; cx_bitpad : bool; cx_farnull : bool; cx_rd : fixes }.
 
 (* canonicalStructSize: scan the data section backwards from the word AFTER the last one
    (Uint64 out of bounds reads 0), then the pointer section for a non-zero raw word *)
@@ -21,26 +23,28 @@ Fixpoint css_data (m : segs) (s : Ptr) (k : nat) : res Z :=
   if negb (v =? 0) then Ok (8 * Z.of_nat k + 8)
   else match k with O => Ok 0 | S k' => css_data m s k' end.
 
-Fixpoint css_ptrs (m : segs) (s : Ptr) (k : nat) : res Z :=
+(* [fixed] = false, as found (O3): the raw pointer word is tested *)
+Fixpoint css_ptrs (fixed strict : bool) (m : segs) (s : Ptr) (k : nat) : res Z :=
   match k with
   | O => Ok 0
-  | S k' => do v <- readRawPointer (seg_of m s) (pointerAddress s (Z.of_nat k'));
-            if negb (v =? 0) then Ok (Z.of_nat k) else css_ptrs m s k'
+  | S k' => do h <- (if fixed then has_nonnull_ptr strict m s (Z.of_nat k')
+                     else do v <- readRawPointer (seg_of m s) (pointerAddress s (Z.of_nat k')); Ok (negb (v =? 0)));
+            if h then Ok (Z.of_nat k) else css_ptrs fixed strict m s k'
   end.
 
-Definition canonicalStructSize (m : segs) (s : Ptr) : res ObjectSize :=
+Definition canonicalStructSize (fixed strict : bool) (m : segs) (s : Ptr) : res ObjectSize :=
   if negb (p_valid s) then Ok (mkOS 0 0)
   else do d <- css_data m s (Z.to_nat (DataSize (p_size s) / 8));
-       do p <- css_ptrs m s (Z.to_nat (PointerCount (p_size s)));
+       do p <- css_ptrs fixed strict m s (Z.to_nat (PointerCount (p_size s)));
        Ok (mkOS d p).
 
 (* max of the canonical sizes of the elements of a struct list *)
-Fixpoint elem_size (fxd : bool) (m : segs) (l : Ptr) (n : nat) (i : Z) (acc : ObjectSize) : res ObjectSize :=
+Fixpoint elem_size (fixed strict : bool) (fxd : bool) (m : segs) (l : Ptr) (n : nat) (i : Z) (acc : ObjectSize) : res ObjectSize :=
   match n with
   | O => Ok acc
   | S n' => do e <- list_struct fxd l i;
-            do sz <- canonicalStructSize m e;
-            elem_size fxd m l n' (i + 1)
+            do sz <- canonicalStructSize fixed strict m e;
+            elem_size fixed strict fxd m l n' (i + 1)
                       (mkOS (Z.max (DataSize acc) (DataSize sz)) (Z.max (PointerCount acc) (PointerCount sz)))
   end.
 
@@ -101,7 +105,7 @@ with canonical_ptr (fuel : nat) (w : world) (sid : Z) (p : Ptr) {struct fuel} : 
     if negb (p_valid p) then KOk (w, nullPtr) else
     match p_kind p with
     | KStruct =>
-      kbind (of_res (canonicalStructSize (w_src w) p)) (fun sz =>
+      kbind (of_res (canonicalStructSize (cx_farnull fx) (cfg_strict c) (w_src w) p)) (fun sz =>
       kbind (of_res (lift w (newStruct (w_dst w) sid sz))) (fun ws =>
       let '(w1, ss) := ws in
       kbind (fill_canonical f w1 ss p) (fun w2 => KOk (w2, ss))))
@@ -141,7 +145,7 @@ with canonical_list (fuel : nat) (w : world) (sid : Z) (l : Ptr) {struct fuel} :
             (fun w3 => KOk (w3, cl)))
     else
       (* struct list *)
-      kbind (of_res (elem_size (fx_depth (cx_rd fx)) (w_src w) l (Z.to_nat (list_len l)) 0 (mkOS 0 0))) (fun esz =>
+      kbind (of_res (elem_size (cx_farnull fx) (cfg_strict c) (fx_depth (cx_rd fx)) (w_src w) l (Z.to_nat (list_len l)) 0 (mkOS 0 0))) (fun esz =>
       kbind (of_res (lift w (newCompositeList (w_dst w) sid esz (p_len l)))) (fun wc =>
       let '(w1, cl) := wc in
       kbind (kfold (iota (Z.to_nat (list_len cl))) w1
@@ -159,7 +163,7 @@ Definition canonicalize (fuel : nat) (src : segs) (rl : Z) (s : Ptr) : cout (lis
     if negb (p_valid s) then (KOk (bs_data (get_seg m0 0)), rl) else
     let w0 := mkW m0 src rl in
     let r :=
-      kbind (of_res (canonicalStructSize src s)) (fun sz =>
+      kbind (of_res (canonicalStructSize (cx_farnull fx) (cfg_strict c) src s)) (fun sz =>
       kbind (of_res (lift w0 (newStruct m0 0 sz))) (fun wr =>
       let '(w1, root) := wr in
       kbind (of_res (set_root 4 w1 InDst root)) (fun w2 =>      (* NewRootStruct *)
@@ -174,7 +178,7 @@ Definition canonicalize (fuel : nat) (src : segs) (rl : Z) (s : Ptr) : cout (lis
 End Canon.
 
 (* ------------------------------------------------------------------ the harness entry *)
-From CV Require Import Value.EqualM Value.CanonSpec.
+From CV Require Import Value.CanonSpec.
 
 (* Canonicalize(select msg sel).Struct() *)
 Definition run_canon (fuel : nat) (c : config) (fx : cfix) (m : segs) (s : sel) : cout (list Z) :=
